@@ -96,17 +96,38 @@ Print Assumptions C01_request_param_audience_refuted.
 (* (2) What parse_request hands on: a request is passed on as *authenticated* client X only if an
    authenticating method accepted X (full statement; since /repo commit 12d8b53 Endpoint.parse_request deletes
    an "authenticated" parameter that the request body brought along - r_authflag is without effect). *)
-Theorem C01_flag_sound : forall cx ep rq now jdb jdb' X,
-  parse_request cx ep rq now jdb = (Ok (PGeneric (Some X) true), jdb') ->
+Theorem C01_flag_sound : forall cx ep rq now jdb jdb' X rc,
+  parse_request cx ep rq now jdb = (Ok (PGeneric (Some X) rc true), jdb') ->
   exists ai, client_authentication cx ep rq now jdb = (Ok (Some ai), jdb')
     /\ ai_client ai = Some X /\ authenticating (ai_method ai) = true.
 Proof. exact flag_sound. Qed.
 Print Assumptions C01_flag_sound.
 
-(* userinfo hands a request on only for a bearer token that its lookup resolves to that client *)
-Theorem C01_userinfo_sound : forall cx ep rq now jdb jdb' X t,
-  parse_request cx ep rq now jdb = (Ok (PUserinfo (Some X) t), jdb') ->
+(* (2b) The identity a request is PROCESSED under.  PGeneric c rc a: c is the client id handed to
+   verify_request / do_post_parse_request, rc is the client_id parameter the parsed request itself carries -
+   the one the token helpers, revocation, introspection and PAR read.  Whatever client_id the body brought
+   along (another registered client, an unregistered one, none), rc = c; and a request handed on as
+   authenticated carries exactly the client X whose credential (credential_ok) was verified. *)
+Theorem C01_request_identity : forall cx ep rq now jdb jdb' c rc a,
+  parse_request cx ep rq now jdb = (Ok (PGeneric c rc a), jdb') -> rc = c.
+Proof. exact request_identity. Qed.
+Print Assumptions C01_request_identity.
+
+Theorem C01_processed_as_proved : forall cx ep rq now jdb jdb' c rc,
+  parse_request cx ep rq now jdb = (Ok (PGeneric c rc true), jdb') ->
+  exists ai X, client_authentication cx ep rq now jdb = (Ok (Some ai), jdb')
+    /\ ai_client ai = Some X /\ c = Some X /\ rc = Some X
+    /\ authenticating (ai_method ai) = true
+    /\ credential_ok cx ep rq now jdb jdb' X (ai_method ai).
+Proof. exact processed_as_proved. Qed.
+Print Assumptions C01_processed_as_proved.
+
+(* userinfo hands a request on only for a bearer token that its lookup resolves to that client; the request's
+   own client_id is that client *)
+Theorem C01_userinfo_sound : forall cx ep rq now jdb jdb' X rc t,
+  parse_request cx ep rq now jdb = (Ok (PUserinfo (Some X) rc t), jdb') ->
   exists ai, client_authentication cx ep rq now jdb = (Ok (Some ai), jdb')
+    /\ rc = Some X
     /\ ai_client ai = Some X /\ ai_token ai = Some t
     /\ (ai_method ai = MBearerHeader \/ ai_method ai = MBearerBody)
     /\ credential_ok cx ep rq now jdb jdb' X (ai_method ai).
@@ -212,8 +233,25 @@ Example C01_smuggled_flag_ignored :
   parse_request wit_cx (wit_ep [MPost; MPublic])
     {| r_hdr := HAbsent; r_client_id := Some (PS "c1"); r_client_secret := None; r_access_token := None;
        r_assertion := None; r_request := None; r_authflag := true |} 1000 []
-  = (Ok (PGeneric (Some (PS "c1")) false), []).
+  = (Ok (PGeneric (Some (PS "c1")) (Some (PS "c1")) false), []).
 Proof. vm_compute. reflexivity. Qed.
+
+(* credential and body disagree: c1's Basic secret / c1's assertion / c1's bearer token, body client_id = c2
+   (registered) or "nobody" (not registered): processed as c1, authenticated *)
+Definition with_body_id (rq : request) (c : pystr) : request :=
+  {| r_hdr := r_hdr rq; r_client_id := Some c; r_client_secret := r_client_secret rq;
+     r_access_token := r_access_token rq; r_assertion := r_assertion rq; r_request := r_request rq;
+     r_authflag := r_authflag rq |}.
+Example C01_nonvacuous_identity :
+  fst (parse_request wit_cx (wit_ep all4) (with_body_id rq_basic (PS "c2")) 1000 [])
+    = Ok (PGeneric (Some (PS "c1")) (Some (PS "c1")) true)
+  /\ fst (parse_request wit_cx (wit_ep all4) (with_body_id (rq_assert hs1) (PS "c2")) 1000 [])
+    = Ok (PGeneric (Some (PS "c1")) (Some (PS "c1")) true)
+  /\ fst (parse_request wit_cx (wit_ep all4) (with_body_id rq_bearer (PS "nobody")) 1000 [])
+    = Ok (PGeneric (Some (PS "c1")) (Some (PS "c1")) true)
+  /\ fst (parse_request wit_cx (wit_ep all4) (with_body_id (rq_assert es2) (PS "c1")) 1000 [])
+    = Ok (PGeneric (Some (PS "c2")) (Some (PS "c2")) true).
+Proof. vm_compute. repeat split. Qed.
 
 (* a history in which the same assertion is presented three times is accepted exactly once *)
 Example C01_nonvacuous_replay :
